@@ -28,10 +28,14 @@ TRUSTED = [
 ]
 PARTIAL = [
     "C04_merge_labels_partial / C04_merge_values_{left,right}_partial need KeysDoNotCollide: a join key that also names a column "
-    "of the other side must be common to both sides (C04_merge_counterexample; open finding D34). C04_merge_wf (keys kept, no "
-    "duplicates) holds for every merge",
+    "of the other side must be common to both sides (C04_merge_counterexample; open finding D34). The value theorems (and the "
+    "laws op_left/op_right of the structure MergeOp) speak about joins whose result labels are duplicate-free - pandas refuses "
+    "the others; C04_merge_pruned_wf: the pruned join is such a join again. C04_merge_wf (keys kept, no duplicates) holds "
+    "for every merge",
     "C04_concat_axis1_wf_partial: with axis=1 an input contributing no requested column is removed from the index join "
-    "(C04_concat_axis1_counterexample; open finding D35); axis=0 is proven in full (C04_concat_wf / C04_concat_values)",
+    "(C04_concat_axis1_counterexample; open finding D35); axis=0 is proven in full (C04_concat_wf / C04_concat_values). "
+    "The labels a Concat declares leave inputs without columns out (concatLabels, as Concat._meta does; with join='inner' that "
+    "is not the pandas intersection: C04_concat_inner_zero_columns, open finding D111)",
     "C04_plain_wf is stated for Projection parents over a frame: over a 1-d input (labels of a reduction result) the scalar "
     "collapse fires for a list selection (C04_reduction_counterexample; open finding D37)",
     "C04_suffix_wf_partial / C04_suffix_values_partial need a non-empty suffix (C04_suffix_counterexample; D38)",
@@ -53,7 +57,9 @@ EXPLANATION = (
     "parameters, parent request and dependents. Theorems, for ANY dependents list: labels/order unchanged, every operator "
     "still finds its key columns and no list gains duplicates, requested values unchanged (operator laws as hypotheses), "
     "listed dependents' columns are kept, unlisted consumers keep the original node, unrequested source columns do not "
-    "influence the pruned plan. Tie: the real _simplify_up/_simplify_down called on constructed (child, parent, dependents) "
+    "influence the pruned plan. Every operator structure the value theorems quantify over is inhabited by a real operator "
+    "with proven laws (Lemmas/ColsInst.lean; list-valued inner/left join, assign, rename, concat, reset_index ... in section 17 "
+    "of Props/C04.lean). Tie: the real _simplify_up/_simplify_down called on constructed (child, parent, dependents) "
     "triples vs the compiled model; T1 table of the classes reaching plain_column_projection with a decided obligation; "
     "category conformance on the real operations. Support: projections of every operator family x shared intermediates x "
     "widened sources, optimize().compute() vs unoptimised lowering vs pandas."
@@ -453,12 +459,56 @@ def fam_assign(ctx):
             ("new+overwrite", ["z", v, cols[1], w]),
             ("dupkeys", ["z", v, "z", w]),
             ("scalar", ["z", 1]),
+            # what `df.assign(z=, y=).assign(z=)` is squashed to: an earlier key assigned again
+            ("reassign_earlier", ["z", v, "y", w, "z", w]),
+            ("reassign_earlier_3", ["y", w, "z", v, "y", v, "q", w]),
+            # one call with an existing and a new key, in both orders
+            ("overwrite+new", [cols[1], w, "z", v]),
+            ("new+overwrite+new", ["z", v, cols[0], w, "y", w]),
         ]
         for nm, pairs in variants:
             e = Assign(df.expr, *pairs)
             insts.append(Inst("assign", e, [e.frame], f"frame={rc(cols)} keys={rc(e.keys)}", list(e.columns), tag=nm,
                               suffix=_keys_suffix(lambda inner: inner.keys)))
     return run_rule_family(ctx, "Assign._simplify_up", insts, cap_parents=30 if ctx.quick else None)
+
+
+def fam_assign_labels(ctx):
+    """T4: the labels `AssignOp.op_cols` states (`assignLabels`: new keys in first-occurrence order) == the columns of the
+    real Assign, for Assign nodes built directly and for what nested `.assign()` calls are simplified to"""
+    from dask_expr._expr import Assign
+
+    f = Family("assign_labels[Assign.columns vs assignLabels]")
+    reqs, code, inputs = [], [], []
+    for cols in (["a", "b", "c"], ["b", "ab", "a", "k"]):
+        df = base(cols)
+        v = (df[cols[0]] + 1).expr
+        w = (df[cols[1]] * 2).expr
+        exprs = []
+        pool = ["z", "y", cols[0], cols[-1], "q"]
+        for n in (1, 2, 3):
+            for keys in itertools.product(pool, repeat=n):
+                pairs = []
+                for i, k in enumerate(keys):
+                    pairs += [k, v if i % 2 == 0 else w]
+                exprs.append(Assign(df.expr, *pairs))
+        # through the API: nested assigns, before and after the squash of Assign._simplify_down
+        for nested in (df.assign(z=df[cols[0]] + 1, y=df[cols[1]] + 1).assign(z=df[cols[0]] + 5),
+                       df.assign(z=df[cols[0]] + 1).assign(**{cols[0]: df[cols[1]] + 1, "y": df[cols[0]] + 2}).assign(z=df[cols[1]] + 3),
+                       df.assign(**{cols[1]: df[cols[0]] + 1, "z": df[cols[0]] + 2})):
+            exprs.append(nested.expr)
+            exprs += [x for x in nested.expr.simplify().walk() if isinstance(x, Assign)]
+        for e in exprs:
+            if not isinstance(e, Assign):
+                continue
+            _KEEP.append(e)
+            reqs.append(f"cols assignlabels frame={rc(e.frame.columns)} keys={rc(e.keys)}")
+            code.append(rc(e.columns))
+            inputs.append({"frame": rc(e.frame.columns), "keys": rc(e.keys)})
+    f.compare(inputs, code, drive(reqs))
+    f.exhaustive = True
+    f.note = "all key lists of length <= 3 over two new keys, two existing columns and a third new key; nested assign() calls"
+    return f
 
 
 def fam_rename(ctx):
@@ -811,12 +861,16 @@ def fam_concat(ctx):
         (["a", "b"], ["b", "c"]),
         (["a", "b"], ["c", "k"]),
         (["b", "a"], ["a", "b"], ["a", "c"]),
+        # an input without columns (the user's frame has none): `Concat._meta` leaves it out when it declares the labels
+        (["a", "b"], []),
+        ([], ["a", "b"], ["b", "c"]),
+        (["a", "b"], [], ["a", "b"]),
     ]
     for fs in schemas:
         for axis, join in ((0, "outer"), (0, "inner"), (1, "outer")):
             if axis == 1 and len({c for s in fs for c in s}) != sum(len(s) for s in fs):
                 continue
-            dfs = [base(s, salt=i) for i, s in enumerate(fs)]
+            dfs = [base(s, salt=i) if s else base(["a", "b"], salt=i)[[]] for i, s in enumerate(fs)]
             try:
                 e = dx.concat(dfs, axis=axis, join=join).expr
             except Exception:  # noqa: BLE001
@@ -830,6 +884,38 @@ def fam_concat(ctx):
             params = f"axis1={int(axis == 1)} inner={int(join == 'inner')} frames={'/'.join(rc(x.columns) for x in e._frames)}"
             insts.append(Inst("concat", e, list(e._frames), params, list(e.columns), tag=f"{fs}|{axis}|{join}", concat=True))
     return run_rule_family(ctx, "Concat._simplify_up", insts, cap_parents=30 if ctx.quick else None)
+
+
+def fam_concat_labels(ctx):
+    """T4: the labels the Concat rule compares with the request (`concatLabels`: inputs without columns left out) == the
+    columns of the real Concat"""
+    import dask_expr as dx
+    from dask_expr._concat import Concat
+
+    f = Family("concat_labels[Concat.columns vs concatLabels]")
+    reqs, code, inputs = [], [], []
+    pool = [["a", "b", "c"], ["a", "b"], ["b", "c"], ["c", "k"], ["b", "a"], []]
+    for n in (2, 3):
+        for fs in itertools.product(pool, repeat=n):
+            if not any(fs):
+                continue  # no input has a column: the real constructor raises
+            for join in ("outer", "inner"):
+                dfs = [base(list(s), salt=i) if s else base(["a", "b"], salt=i)[[]] for i, s in enumerate(fs)]
+                try:
+                    e = dx.concat(dfs, join=join).expr
+                    cands = [x for x in e.walk() if isinstance(x, Concat)]
+                    e = cands[0]
+                    got = rc(e.columns)
+                except Exception as ex:  # noqa: BLE001
+                    got = f"ERR {type(ex).__name__}"
+                _KEEP.append(e)
+                reqs.append(f"cols concatlabels axis1=0 inner={int(join == 'inner')} frames={'/'.join(rc(s) for s in fs)}")
+                code.append(got)
+                inputs.append({"frames": [list(s) for s in fs], "join": join})
+    f.compare(inputs, code, drive(reqs))
+    f.exhaustive = True
+    f.note = "all lists of 2 and 3 inputs over 6 schemas incl. the empty one, join outer/inner, axis=0"
+    return f
 
 
 def fam_down(ctx):
@@ -998,7 +1084,8 @@ def fam_category_conformance(ctx):
 
 def families(ctx):
     return [fam_detproj, fam_plain, fam_reduction, fam_filter, fam_assign, fam_rename, fam_affix, fam_binop, fam_astype,
-            fam_dropna, fam_combine_first, fam_opalign, fam_reset_index, fam_io, fam_keyed, fam_rolling, fam_merge, fam_merge_labels, fam_concat, fam_down,
+            fam_dropna, fam_combine_first, fam_opalign, fam_reset_index, fam_io, fam_keyed, fam_rolling, fam_merge, fam_merge_labels, fam_concat,
+            fam_concat_labels, fam_assign_labels, fam_down,
             fam_source_reads, fam_category_conformance]
 
 
